@@ -7,9 +7,10 @@ use crate::ws::r2;
 
 pub struct C13;
 
-pub const FAULTS: [&str; 13] = [
+pub const FAULTS: [&str; 14] = [
     "required-argument-missing-before-named",
     "undefined-field",
+    "undefined-let-field",
     "undefined-class",
     "undefined-multiclass",
     "undefined-identifier",
@@ -86,6 +87,14 @@ fn pick_edit(p: &crate::gen::sem::Program, class: &str, pick: usize) -> Option<E
                 .collect();
             let o = c.get(pick % c.len().max(1))?;
             Some(ident_edit(o, "no_such_field".into(), "field name after '.' replaced by an undeclared one".into()))
+        }
+        "undefined-let-field" => {
+            // the field named by a `let` in a record body (whole-field overrides only: a bit range
+            // after an unknown name reads the same)
+            let c: Vec<&crate::gen::sem::LetInfo> = p.lets.iter().filter(|l| p.files[l.file].1.as_bytes().get(l.name_range.1) != Some(&b'{')).collect();
+            let l = c.get(pick % c.len().max(1))?;
+            let new = "no_such_field".to_string();
+            Some(Edit { file: l.file, range: l.name_range, site: (l.name_range.0, l.name_range.0 + new.len()), text: new, what: "field named by a let replaced by an undeclared one".into() })
         }
         "missing-include" => {
             let file = pick % p.files.len();
